@@ -94,6 +94,11 @@ pub enum Op {
     Reparse { doc: usize },
     /// mutate the (read-only) entities / notations map of the document type: which = 0 entities set, 1 entities remove, 2 notations set, 3 notations remove
     DtMap { doc: usize, which: usize, name: String },
+    /// a canned multi-call probe on a private re-parse of the document's current serialisation (the
+    /// model is not involved): 0 move the value piece of a DTD-defaulted attribute, 1 set_value on a
+    /// defaulted attribute, 2 set_data on its value piece, 3 sibling navigation of a notation after the
+    /// document type was removed
+    Probe { doc: usize, which: usize },
 }
 
 #[derive(Clone, Debug, PartialEq)]
@@ -256,6 +261,7 @@ impl Step {
             Op::Restart { doc } => W::new(t, "restart").n("doc", *doc),
             Op::Reparse { doc } => W::new(t, "reparse").n("doc", *doc),
             Op::DtMap { doc, which, name } => W::new(t, "dt_map").n("doc", *doc).n("which", *which).t("name", name),
+            Op::Probe { doc, which } => W::new(t, "probe").n("doc", *doc).n("which", *which),
         };
         w.s
     }
@@ -344,6 +350,7 @@ impl Step {
             "restart" => Op::Restart { doc: n("doc")? },
             "reparse" => Op::Reparse { doc: n("doc")? },
             "dt_map" => Op::DtMap { doc: n("doc")?, which: n("which")?, name: t("name")? },
+            "probe" => Op::Probe { doc: n("doc")?, which: n("which")? },
             _ => return None,
         };
         Some(Step { task, op })
@@ -400,6 +407,7 @@ impl Step {
             Op::Restart { .. } => "restart",
             Op::Reparse { .. } => "reparse",
             Op::DtMap { .. } => "dt_map",
+            Op::Probe { .. } => "probe",
         }
     }
 
